@@ -10,7 +10,7 @@ What is modelled (store prefixes in brackets): oracle registry [0x12] with stake
 external-address [0x13] and bridger [0x14] indexes, the proposal oracle list, `LastTotalPower` [0x39] (refreshed ONLY where
 the code calls `SetLastTotalPower`), `LastObservedEventNonce` [0x24], `LastEventNonceByOracle` [0x23] including the fallback
 for an absent key, attestations [0x17] keyed by (nonce, claim hash id) with ordered vote lists, pending execute claims
-[0x54], pruning with `MaxKeepEventSize`.  Ghost logs `observedLog` / `executedLog` are only appended, never read.
+[0x54], pruning with `MaxKeepEventSize`.  Ghost components `observedLog` / `executedLog` / `retired` are only appended, never read.
 
 Environment inputs carried by the ops (dependencies that are not modelled): `dep` = the bank / staking calls of the handler
 succeeded; `ubd`/`bal` = an unbonding delegation of the oracle's delegate address exists / its balance; the oracles slashed
@@ -88,6 +88,7 @@ structure State where
   pending : List Nat := []
   observedLog : List (Nat × Nat) := []   -- ghost: (nonce, hash id) of every observation, in order
   executedLog : List Nat := []           -- ghost: nonce of every successful deferred execution, in order
+  retired : List Nat := []               -- ghost: oracles whose per-oracle last nonce was deleted by UnbondedOracle
   deriving Repr
 
 def init (p : Params) : State := { params := p }
@@ -289,7 +290,8 @@ def unbondStep (s : State) (o : Nat) (ubd : Bool) (bal : Nat) (dep : Bool) : Sta
         byExt := s.byExt.del orc.ext
         byBridger := s.byBridger.del orc.bridger
         oracles := s.oracles.del o
-        lastNonce := if unbondDeletesLastNonce then s.lastNonce.del o else s.lastNonce }, .ok)
+        lastNonce := if unbondDeletesLastNonce then s.lastNonce.del o else s.lastNonce
+        retired := if unbondDeletesLastNonce then o :: s.retired else s.retired }, .ok)
 
 /-- oracles that `UpdateProposalOracles` unbonds: registered, in the old proposal, not in the new one -/
 def govRemoved (s : State) (l : List Nat) (p : Nat × Oracle) : Bool := !l.contains p.1 && s.proposal.contains p.1
@@ -336,6 +338,13 @@ def step (s : State) : Op → State × Out
   | .gov l d => govStep s l d
   | .endBlock sl osr => endBlockStep s sl osr
   | .exec n f => execStep s n f
+
+/-- no `BondedOracle` of the history targets an oracle whose last nonce was deleted by an earlier `UnbondedOracle`
+(i.e. there is no unbond → re-bond of the same oracle address) -/
+def noRebond (s : State) : List Op → Bool
+  | [] => true
+  | .bond o b e a d :: r => !s.retired.contains o && noRebond (step s (.bond o b e a d)).1 r
+  | op :: r => noRebond (step s op).1 r
 
 def run (s : State) : List Op → State
   | [] => s
